@@ -45,10 +45,12 @@ pub fn write_arg(text: &str, style: Style) -> Option<String> {
             }
         }
         Style::Double => {
-            if text.chars().any(|c| "$`\\\"".contains(c)) {
+            // a double quote is written \" inside double quotes; `$`, backquote and backslash have no literal
+            // spelling inside cicada's double quotes
+            if text.chars().any(|c| "$`\\".contains(c)) {
                 None
             } else {
-                Some(format!("\"{}\"", text))
+                Some(format!("\"{}\"", text.replace('"', "\\\"")))
             }
         }
         Style::Escaped => {
